@@ -99,6 +99,10 @@ def is_signal(exc):
     return isinstance(exc, (KernelInterrupt, GeneratorExit))
 
 
+#: condition objects shared by the runs of one history (cleared by whoever starts a history)
+SHARED_CONDITIONS = {}
+
+
 class Record:
     """What one simulated run produced."""
     __slots__ = ("case", "trace", "acts", "sched", "outcome", "kernel_violations", "fired",
@@ -461,7 +465,16 @@ class World:
         date = self.num(op["t"])
         cmp = op["cmp"]
         self.log(a, "at+", cmp, date)
-        if cmp == "==":
+        if self.scenario.get("share_conditions"):
+            # one condition object per (comparison, date) for all runs of a history, like a
+            # module-level `DEADLINE = time >= 10` used by several replications
+            cond = SHARED_CONDITIONS.get((cmp, date))
+            if cond is None:
+                cond = SHARED_CONDITIONS[(cmp, date)] = \
+                    (time == date) if cmp == "==" else (time >= date) if cmp == ">=" \
+                    else (time < date)
+            await cond
+        elif cmp == "==":
             await (time == date)
         elif cmp == ">=":
             await (time >= date)
